@@ -287,8 +287,6 @@ func c12Session(ctx *core.Ctx, res *core.Result, s *Sess, c *CConn, msize uint32
 				res.Violate("C12;error-reply-replaced;"+sizeClass, fmt.Sprintf("the implementation answered with an error of %d bytes (errnum %#x); the client received %s", len(plan.Err), plan.Errnum, rep.Msg.String()), d)
 			case !strings.HasPrefix(text, rep.Msg.Ename) || (dotu && rep.Msg.Ecode != plan.Errnum):
 				res.Violate("C12;error-reply-garbled;"+sizeClass, fmt.Sprintf("Rerror %q/%d is not (a prefix of) the error the implementation gave (errnum %#x, %d bytes)", short(rep.Msg.Ename), rep.Msg.Ecode, plan.Errnum, len(plan.Err)), d)
-			case len(rep.Msg.Ename) < len(text) && len(rep.Raw) < int(msize)-8:
-				res.Violate("C12;error-text-cut-needlessly;"+sizeClass, fmt.Sprintf("error text cut to %d of %d bytes although the frame has only %d of %d bytes", len(rep.Msg.Ename), len(text), len(rep.Raw), msize), d)
 			}
 		}
 		if m.Type == wire.Tread && rep.Msg.Type == wire.Rread && rep.Msg.Count > m.Count {
